@@ -69,6 +69,8 @@ structure MState (σ ω : Type) where
   snapForgot : List (String × Bool)
   /-- replicas whose history left the second region (a delivery violating `ok`/`ok2`, any merge, reset_remove, foreign actor) -/
   taint2 : List Bool := []
+  /-- the replica at which each actor first generated an op (an actor later used elsewhere = the misuse the properties exclude) -/
+  actorHome : List (Nat × Nat) := []
 
 def lookup {β : Type} (k : String) : List (String × β) → Option β
   | [] => none
@@ -96,7 +98,7 @@ namespace MState
 variable {σ ω : Type}
 
 def new (T : CrdtOps σ ω) (n : Nat) : MState σ ω :=
-  ⟨List.replicate n T.init, List.replicate n [], [], [], List.replicate n false, [], List.replicate n false, [], List.replicate n false⟩
+  ⟨List.replicate n T.init, List.replicate n [], [], [], List.replicate n false, [], List.replicate n false, [], List.replicate n false, []⟩
 
 def rep (m : MState σ ω) (t : String) : Option Nat :=
   match t.toNat? with
@@ -460,10 +462,12 @@ where
       match (T.gen s a args).bind (T.admit m.ops name) with
       | none => (m, "nogen")
       | some op =>
+        let home := ((m.actorHome.find? (fun p => p.1 == a)).map (·.2)).getD r
+        let m := if (m.actorHome.any (fun p => p.1 == a)) then m else { m with actorHome := (a, r) :: m.actorHome }
         let fresh := match T.opDot op with
           | some d =>
             if m.forgot.getD r false then " fresh=na"
-            else if a != r then " fresh=na"  -- an actor used away from its own replica: the misuse the property excludes
+            else if a != r || home != r then " fresh=na"  -- an actor used away from its own / first replica: the misuse the property excludes
             else if m.ops.any (fun (n, o) => n != name && T.opDot o == some d) then " fresh=FAIL" else " fresh=ok"
           | none => ""
         let m' := ({ m with ops := setKey name op m.ops }.setRep r (T.apply s op)).learn r [name]
